@@ -7,6 +7,7 @@
 #pragma once
 
 #include <pika/config.hpp>
+#include <pika/config/verif_hooks.hpp>
 
 #if defined(PIKA_HAVE_STDEXEC)
 # include <pika/execution_base/stdexec_forward.hpp>
@@ -91,8 +92,10 @@ namespace pika::when_all_vector_detail {
             void set_error(Error&& error) && noexcept
             {
                 auto r = std::move(*this);
+                PIKA_VERIF_POINT("wa.sig", &r.op_state.predecessors_remaining, 2, 0);
                 if (!r.op_state.set_stopped_error_called.exchange(true))
                 {
+                    PIKA_VERIF_POST("wa.latch", &r.op_state.predecessors_remaining, 2, 0);
                     try
                     {
                         r.op_state.error = std::forward<Error>(error);
@@ -110,6 +113,7 @@ namespace pika::when_all_vector_detail {
             void set_stopped() && noexcept
             {
                 auto r = std::move(*this);
+                PIKA_VERIF_POINT("wa.sig", &r.op_state.predecessors_remaining, 1, 0);
                 r.op_state.set_stopped_error_called = true;
                 r.op_state.finish();
             };
@@ -118,8 +122,10 @@ namespace pika::when_all_vector_detail {
             void set_value(Ts&&... ts) && noexcept
             {
                 auto r = std::move(*this);
+                PIKA_VERIF_POINT("wa.sig", &r.op_state.predecessors_remaining, 0, 0);
                 if (!r.op_state.set_stopped_error_called)
                 {
+                    PIKA_VERIF_POST("wa.store", &r.op_state.predecessors_remaining, r.i, 0);
                     try
                     {
                         // We only have something to store if the
@@ -216,8 +222,11 @@ namespace pika::when_all_vector_detail {
 
         void finish() noexcept
         {
+            PIKA_VERIF_POINT("wa.fin", &predecessors_remaining, 0, 0);
             if (--predecessors_remaining == 0)
             {
+                PIKA_VERIF_POST("wa.zero", &predecessors_remaining,
+                    set_stopped_error_called.load() ? 1 : 0, error.has_value() ? 1 : 0);
                 if (!set_stopped_error_called)
                 {
                     if constexpr (types::is_void_value_type)
